@@ -20,7 +20,7 @@ func init() {
 				"(burn) RemoveLiquidity passes the token's Volume() as totalSupply to PairBurn with data.Liquidity, burns exactly data.Liquidity from the token's volume and from the sender's balance, and credits the returned amounts in the pool's coins to the sender; " +
 				"(key) every access of the live pool table uses the normalised (sorted) coin pair, so a pool cannot be missed or created twice when the coins arrive in the other order; (token) in all three the token is the one named LiquidityCoinSymbol(<id of the pool (data.Coin0, data.Coin1)>).",
 			Assumptions: stdAssumptions,
-			Rules:       []string{"C13.create", "C13.mint", "C13.burn", "C13.key"},
+			Rules:       []string{"C13.create", "C13.mint", "C13.burn", "C13.key", "C13.sim"},
 		},
 		Run: runC13,
 	})
@@ -47,6 +47,7 @@ func extractOf(v ssa.Value, call ssa.Value, idx int) bool {
 }
 
 func runC13(c *core.Ctx) {
+	defer checkRunningSimulation(c, "C13.sim")
 	for _, m := range LiveModels(c, "C13.create") {
 		switch m.H.ConstName {
 		case "TypeCreateSwapPool":
@@ -363,4 +364,97 @@ func normalisedKey(c *core.Ctx, o ssa.Value, at ssa.Instruction) (string, bool) 
 		return "parameter " + x.Name() + " as given by the caller", false
 	}
 	return describe(o), false
+}
+
+// checkRunningSimulation — C13.sim. The order-fill calculations walk the order book with a
+// running scratch pool: `var pair EditableChecker = p; for … { … pair = pair.AddLastSwapStep(…) }`.
+// Every step is priced (and its K-guard evaluated) on the pool as moved by the steps before it.
+// Decided: a loop-carried scratch pool that starts as the receiver is, on every way round the
+// loop, either unchanged or the result of a method called on the running value itself — never a
+// value rebuilt from the untouched receiver, which would price the rest of the trade on
+// reserves that no longer exist (the taker gets the cheap part of the curve twice).
+func checkRunningSimulation(c *core.Ctx, rule string) {
+	n := 0
+	for _, fn := range c.SrcFuncs("coreV2/state/swap") {
+		if fn.Blocks == nil || fn.Signature.Recv() == nil || len(fn.Params) == 0 || legacyV1(fn) {
+			continue
+		}
+		recv := fn.Params[0]
+		k := 0
+		for _, b := range fn.Blocks {
+			if !core.InCycle(b) {
+				continue
+			}
+			for _, in := range b.Instrs {
+				ph, ok := in.(*ssa.Phi)
+				if !ok {
+					break
+				}
+				if !strings.HasSuffix(ph.Type().String(), "swap.EditableChecker") && !strings.HasSuffix(ph.Type().String(), "swap.PairV2") {
+					continue
+				}
+				// starts as the receiver?
+				fromRecv := false
+				for _, e := range ph.Edges {
+					if core.Unwrap(e) == ssa.Value(recv) {
+						fromRecv = true
+					}
+				}
+				if !fromRecv {
+					continue
+				}
+				k++
+				n++
+				key := fmt.Sprintf("%s/running-pool#%d", core.ShortFn(fn), k)
+				bad := ""
+				var derives func(v ssa.Value, seen map[ssa.Value]bool) bool
+				derives = func(v ssa.Value, seen map[ssa.Value]bool) bool {
+					if v == ssa.Value(ph) {
+						return true
+					}
+					if seen[v] {
+						return true
+					}
+					seen[v] = true
+					switch x := v.(type) {
+					case *ssa.Phi:
+						for _, e := range x.Edges {
+							if !derives(e, seen) {
+								return false
+							}
+						}
+						return true
+					case *ssa.MakeInterface:
+						return derives(x.X, seen)
+					case *ssa.ChangeInterface:
+						return derives(x.X, seen)
+					case *ssa.Call:
+						if x.Call.IsInvoke() {
+							return derives(x.Call.Value, seen)
+						}
+						if sc := x.Call.StaticCallee(); sc != nil && sc.Signature.Recv() != nil && len(x.Call.Args) > 0 {
+							return derives(x.Call.Args[0], seen)
+						}
+					}
+					return false
+				}
+				for i, e := range ph.Edges {
+					pred := b.Preds[i]
+					backEdge := core.ReachFrom(b, nil)[pred] // the predecessor lies inside the loop
+					if !backEdge {
+						continue
+					}
+					if !derives(e, map[ssa.Value]bool{}) {
+						pos := e.Pos()
+						if !pos.IsValid() {
+							pos = ph.Pos()
+						}
+						bad = c.PosStr(pos)
+					}
+				}
+				c.Check(bad == "", rule, key, ph.Pos(), "the running scratch pool is only ever advanced from itself", "the running scratch pool of this loop is replaced (at "+bad+") by a value that is not derived from the running pool — e.g. rebuilt from the untouched receiver: the rest of the trade is priced on reserves that the steps so far have already moved")
+			}
+		}
+	}
+	c.Floor(rule, n, 2, "loop-carried scratch pools in the order-fill calculations")
 }
